@@ -36,7 +36,7 @@ func run(c *hl.Ctx) error {
 	}
 	n := c.Pick(1500, 20000)
 	for i := 0; i < n; i++ {
-		g := semlib.New(r, semlib.Opts{MaxDecls: 40, MaxDepth: 4, Underscore: true, QuotedKw: true, ErrSeeds: false, Nulls: true, EdgeMapUnderscore: true})
+		g := semlib.New(r, semlib.Opts{MaxDecls: 40, MaxDepth: 4, Underscore: true, QuotedKw: true, ErrSeeds: false, Nulls: true, EdgeMapUnderscore: true, SpecialNames: true})
 		src := g.Program()
 		gc, why := semlib.GraphCase("core+", src)
 		if gc == nil {
@@ -48,7 +48,7 @@ func run(c *hl.Ctx) error {
 	}
 	m := c.Pick(1500, 20000)
 	for i := 0; i < m; i++ {
-		g := semlib.New(r, semlib.Opts{MaxDecls: 40, MaxDepth: 4, Underscore: true, QuotedKw: true, ErrSeeds: false, Nulls: true})
+		g := semlib.New(r, semlib.Opts{MaxDecls: 40, MaxDepth: 4, Underscore: true, QuotedKw: true, ErrSeeds: false, Nulls: true, SpecialNames: true})
 		src := g.Program()
 		cc, why := semlib.CoreCase(src)
 		if cc == nil {
